@@ -19,6 +19,7 @@ import (
 	"bytes"
 	"compress/gzip"
 	"crypto/sha256"
+	"encoding/base64"
 	"encoding/hex"
 	"encoding/json"
 	"flag"
@@ -28,6 +29,7 @@ import (
 	"os"
 	"reflect"
 	"strings"
+	"sync"
 
 	"github.com/hashicorp/go-hclog"
 	"github.com/hashicorp/raft"
@@ -67,37 +69,38 @@ type Expect struct {
 // WriteInfo explains an archive consul's writer produced in the model's terms:
 // write ord m s, with the stdlib's own encoding of m and its own rendering of the two lines.
 type WriteInfo struct {
-	Ord   bool   `json:"ord"`   // true: the meta.json line comes first
-	Meta  int    `json:"meta"`  // id of the metadata struct handed to the writer
-	Enc   string `json:"enc"`   // json.Encoder output for it (hex)
-	State string `json:"state"` // the payload: the first Size bytes of the snapshot reader (hex)
-	Sums  string `json:"sums"`  // the two "%x  %s\n" lines in the order ord (hex)
-	Forced bool  `json:"forced"` // the SHA256SUMS member was rewritten by the harness into this order
+	Ord    bool   `json:"ord"`    // true: the meta.json line comes first
+	Meta   int    `json:"meta"`   // id of the metadata struct handed to the writer
+	Enc    string `json:"enc"`    // json.Encoder output for it (hex)
+	State  string `json:"state"`  // the payload: the first Size bytes of the snapshot reader (hex)
+	Sums   string `json:"sums"`   // the two "%x  %s\n" lines in the order ord (hex)
+	Forced bool   `json:"forced"` // the SHA256SUMS member was rewritten by the harness into this order
 }
 
 type Case struct {
-	Type    string                 `json:"type"` // "case"
-	ID      int                    `json:"id"`
-	Base    int                    `json:"base"` // index of the intact view this archive derives from
-	Kind    string                 `json:"kind"`
-	Gz      bool                   `json:"gz"`
-	Archive string                 `json:"archive,omitempty"` // hex of the damaged bytes (small ones only)
-	Hdr     bool                   `json:"hdr"`
-	Members []Member               `json:"members"`
-	Term    bool                   `json:"term"`
-	Trailer bool                   `json:"trailer"`
-	Dec     []DecEntry             `json:"dec"`
-	Sums    string                 `json:"sums"`
-	Lines   []Line                 `json:"lines"`
-	Scan    bool                   `json:"scan"` // bufio.Scanner ended with an error
-	Write   *WriteInfo             `json:"write,omitempty"`
-	Expect  Expect                 `json:"expect"`
-	Oracle  string                 `json:"oracle"` // "" or the reason the direct oracle objects
-	Sig     map[string]interface{} `json:"sig,omitempty"`
-	Replay  interface{}            `json:"replay,omitempty"`
-	Class   string                 `json:"class,omitempty"` // for accepted damaged archives: how the view differs
-	ToCoq   bool                   `json:"to_coq"`
-	OrigLen int                    `json:"orig_state_len"`
+	Type      string                 `json:"type"` // "case"
+	ID        int                    `json:"id"`
+	Base      int                    `json:"base"` // index of the intact view this archive derives from
+	Kind      string                 `json:"kind"`
+	Gz        bool                   `json:"gz"`
+	Archive   string                 `json:"archive,omitempty"`    // hex of the damaged bytes (oracle failures)
+	ArchiveGz string                 `json:"archive_gz,omitempty"` // base64(gzip(bytes)) for the cases Coq evaluates
+	Hdr       bool                   `json:"hdr"`
+	Members   []Member               `json:"members"`
+	Term      bool                   `json:"term"`
+	Trailer   bool                   `json:"trailer"`
+	Dec       []DecEntry             `json:"dec"`
+	Sums      string                 `json:"sums"`
+	Lines     []Line                 `json:"lines"`
+	Scan      bool                   `json:"scan"` // bufio.Scanner ended with an error
+	Write     *WriteInfo             `json:"write,omitempty"`
+	Expect    Expect                 `json:"expect"`
+	Oracle    string                 `json:"oracle"` // "" or the reason the direct oracle objects
+	Sig       map[string]interface{} `json:"sig,omitempty"`
+	Replay    interface{}            `json:"replay,omitempty"`
+	Class     string                 `json:"class,omitempty"` // for accepted damaged archives: how the view differs
+	ToCoq     bool                   `json:"to_coq"`
+	OrigLen   int                    `json:"orig_state_len"`
 }
 
 // BaseView is the member view of an intact archive; damaged views are compared with it in Coq.
@@ -512,13 +515,13 @@ func classify(baseMs, ms []Member) string {
 }
 
 type origin struct {
-	bi      int // base view index
-	meta    *raft.SnapshotMeta
-	state   []byte
-	baseMs  []Member
-	write   *WriteInfo // only for intact archives
-	fuzz    interface{}
-	isFuzz  bool
+	bi     int // base view index
+	meta   *raft.SnapshotMeta
+	state  []byte
+	baseMs []Member
+	write  *WriteInfo // only for intact archives
+	fuzz   interface{}
+	isFuzz bool
 }
 
 func (e *emitter) emit(o *origin, mu mutation, toCoq bool) *Case {
@@ -592,10 +595,8 @@ func (e *emitter) emit(o *origin, mu mutation, toCoq bool) *Case {
 		c.Oracle = "unrecognised-error: " + r.exp.Msg
 	}
 	c.Expect.Msg = ""
-	if toCoq || c.Oracle != "" {
-		if len(mu.data) <= 1<<16 {
-			c.Archive = hex.EncodeToString(mu.data)
-		}
+	if c.Oracle != "" && len(mu.data) <= 1<<16 {
+		c.Archive = hex.EncodeToString(mu.data) // the replay of an oracle failure
 	}
 	if toCoq {
 		// de-duplicate by what the model sees
@@ -617,25 +618,275 @@ func (e *emitter) emit(o *origin, mu mutation, toCoq bool) *Case {
 		k := string(sum(key))
 		if e.seenCoq[k] {
 			c.ToCoq = false
-			if c.Oracle == "" {
-				c.Archive = ""
-			}
 		} else {
 			e.seenCoq[k] = true
+			if c.Archive == "" && len(mu.data) <= 1<<16 {
+				// kept for the replay of a correspondence failure; archives are mostly padding
+				c.ArchiveGz = base64.StdEncoding.EncodeToString(gzipBytes(mu.data))
+			}
 		}
 	}
-	if !c.ToCoq && c.Oracle == "" {
-		// keep the line short: the view is only needed for Coq and for failures
-		c.Members, c.Dec, c.Lines, c.Sums = nil, nil, nil, ""
+	// every archive is counted; only the ones Coq evaluates and the oracle failures are written out
+	e.stats["total"]++
+	e.stats["kind:"+kindClass(mu.kind, mu.gz)]++
+	if c.Expect.Ok {
+		e.stats["verdict:ok"]++
+		if !intact {
+			e.stats["accepted_damaged"]++
+			e.stats["class:"+c.Class]++
+		}
+	} else {
+		e.stats[fmt.Sprintf("verdict:%d", c.Expect.Err)]++
 	}
-	e.line(&c)
+	if c.ToCoq || c.Oracle != "" {
+		e.line(&c)
+	}
 	return &c
+}
+
+// kindClass: "flip@12^01" -> "flip", "inject:evil.bin(1)t0@2+gz" -> "inject/gz"
+func kindClass(kind string, gz bool) string {
+	k := strings.TrimSuffix(kind, "+gz")
+	for _, sep := range []string{"@", ":", "#"} {
+		k = strings.SplitN(k, sep, 2)[0]
+	}
+	if gz {
+		k += "/gz"
+	}
+	return k
+}
+
+// runBase generates, runs and records every fault of one base archive (its own emitter, id range
+// and random stream: the bases are processed in parallel and merged in order).
+func runBase(e *emitter, bi int, b *base, bases []*base, isSmall, thorough bool, rng *rand.Rand, masks, bigMasks []byte,
+	orders map[string]int) []restoreItem {
+	var restoreSet []restoreItem
+	for _, gz := range []bool{false, true} {
+		data := b.tarb
+		if gz {
+			data = b.gzb
+		}
+		baseMs := membersOf(data, gz)
+		wi := writeInfo(&b.meta, b.state, baseMs, newMetaIDs())
+		orders[fmt.Sprintf("written-by-consul/ord=%v", wi.Ord)]++
+		o := &origin{bi: e.newBase(baseMs), meta: &b.meta, state: b.state, baseMs: baseMs, write: wi}
+		sfx := ""
+		if gz {
+			sfx = "+gz"
+		}
+		idToCoq := isSmall || len(b.state) <= 4096
+		e.emit(o, mutation{"identity" + sfx, gz, data}, idToCoq)
+
+		// the same archive with the two SHA256SUMS lines in the OTHER order (the order is a Go map
+		// iteration order): the reader must accept it, and the model's write with the other ord
+		// must equal its view
+		{
+			ms := tarMembers(b.tarb)
+			var eb bytes.Buffer
+			json.NewEncoder(&eb).Encode(&b.meta)
+			lm := fmt.Sprintf("%x  %s\n", sum(eb.Bytes()), "meta.json")
+			ls := fmt.Sprintf("%x  %s\n", sum(b.state), "state.bin")
+			other := lm + ls
+			if wi.Ord {
+				other = ls + lm
+			}
+			for i := range ms {
+				if ms[i].name == "SHA256SUMS" {
+					ms[i].data = []byte(other)
+				}
+			}
+			od := buildTar(ms)
+			if gz {
+				od = gzipBytes(od)
+			}
+			oms := membersOf(od, gz)
+			owi := writeInfo(&b.meta, b.state, oms, newMetaIDs())
+			owi.Forced = true
+			orders[fmt.Sprintf("rewritten-into-other-order/ord=%v", owi.Ord)]++
+			oo := &origin{bi: e.newBase(oms), meta: &b.meta, state: b.state, baseMs: oms, write: owi}
+			e.emit(oo, mutation{"identity-other-order" + sfx, gz, od}, idToCoq)
+		}
+
+		if !gz {
+			// --- byte flips, plain ---
+			stride := 1
+			ms := masks
+			if !isSmall {
+				ms = bigMasks
+				if !thorough {
+					stride = 7
+				}
+			}
+			off := 0
+			if stride > 1 {
+				off = rng.Intn(stride)
+			}
+			for pos := off; pos < len(data); pos += stride {
+				for _, fl := range ms {
+					d := append([]byte{}, data...)
+					d[pos] ^= fl
+					e.emit(o, mutation{fmt.Sprintf("flip@%d^%02x", pos, fl), false, d}, isSmall)
+				}
+			}
+		} else {
+			ms := masks
+			if !isSmall {
+				ms = bigMasks
+			}
+			off := rng.Intn(5)
+			for pos := 0; pos < len(data); pos++ {
+				if !isSmall && !thorough && pos%5 != off {
+					continue
+				}
+				for _, fl := range ms {
+					d := append([]byte{}, data...)
+					d[pos] ^= fl
+					e.emit(o, mutation{fmt.Sprintf("gzflip@%d^%02x", pos, fl), true, d}, isSmall)
+					if isSmall && fl == 0x01 {
+						restoreSet = append(restoreSet, restoreItem{kind: "gzflip", data: d, state: b.state})
+					}
+				}
+			}
+		}
+		// --- truncations ---
+		tstride := 1
+		if !isSmall && !thorough {
+			tstride = 3
+		}
+		for n := 0; n < len(data); n += tstride {
+			k := "trunc"
+			if gz {
+				k = "gztrunc"
+			}
+			e.emit(o, mutation{fmt.Sprintf("%s@%d", k, n), gz, data[:n]}, isSmall)
+			if gz && isSmall {
+				restoreSet = append(restoreSet, restoreItem{kind: "gztrunc", data: data[:n], state: b.state})
+			}
+		}
+		if gz {
+			restoreSet = append(restoreSet, restoreItem{kind: "identity", data: data, state: b.state})
+			continue
+		}
+		// from here on: rewrites of the plain archive, fed plain and gzip-wrapped; their intact
+		// view is the plain one
+		both := func(kind string, t []byte) {
+			e.emit(o, mutation{kind, false, t}, isSmall)
+			g := gzipBytes(t)
+			e.emit(o, mutation{kind + "+gz", true, g}, isSmall)
+			if isSmall {
+				restoreSet = append(restoreSet, restoreItem{kind: strings.SplitN(kind, ":", 2)[0], data: g, state: b.state})
+			}
+		}
+		// truncating the *uncompressed* stream and re-compressing (a cut before compression)
+		for n := 0; n < len(b.tarb); n += 512 {
+			e.emit(o, mutation{fmt.Sprintf("trunc-then-gz@%d", n), true, gzipBytes(b.tarb[:n])}, isSmall)
+		}
+		// trailing garbage after the archive inside the gzip stream; a second gzip member appended
+		e.emit(o, mutation{"gz-trailing-garbage", true, gzipBytes(append(append([]byte{}, b.tarb...), 1, 2, 3))}, isSmall)
+		e.emit(o, mutation{"gz-trailing-zero-block", true, gzipBytes(append(append([]byte{}, b.tarb...), make([]byte, 512)...))}, isSmall)
+		e.emit(o, mutation{"gz-multistream-empty", true, append(gzipBytes(b.tarb), gzipBytes(nil)...)}, isSmall)
+		e.emit(o, mutation{"gz-multistream-garbage", true, append(gzipBytes(b.tarb), gzipBytes([]byte("tail"))...)}, isSmall)
+
+		// --- member-level rewrites ---
+		tms := tarMembers(b.tarb)
+		for i := range tms {
+			rm := append(append([]tmember{}, tms[:i]...), tms[i+1:]...)
+			both("remove:"+tms[i].name, buildTar(rm))
+			for j := 0; j <= len(tms); j++ {
+				dup := append(append(append([]tmember{}, tms[:j]...), tms[i]), tms[j:]...)
+				both(fmt.Sprintf("dup:%s@%d", tms[i].name, j), buildTar(dup))
+			}
+			for _, nn := range []string{"meta.json", "state.bin", "SHA256SUMS", "evil.bin", ""} {
+				if nn == tms[i].name {
+					continue
+				}
+				rn := append([]tmember{}, tms...)
+				rn[i] = tmember{name: nn, data: tms[i].data}
+				both(fmt.Sprintf("rename:%s->%q", tms[i].name, nn), buildTar(rn))
+			}
+			// content replaced wholesale (same length and different length)
+			alt := append([]byte{}, tms[i].data...)
+			if len(alt) > 0 {
+				alt[rng.Intn(len(alt))] ^= 0x20
+			}
+			alt2 := append(append([]byte{}, tms[i].data...), 'x')
+			for k, a := range [][]byte{alt, alt2, {}} {
+				if bytes.Equal(a, tms[i].data) {
+					continue
+				}
+				rp := append([]tmember{}, tms...)
+				rp[i] = tmember{name: tms[i].name, data: a}
+				both(fmt.Sprintf("replace:%s#%d", tms[i].name, k), buildTar(rp))
+			}
+		}
+		perms := [][]int{{0, 2, 1}, {1, 0, 2}, {1, 2, 0}, {2, 0, 1}, {2, 1, 0}}
+		if len(tms) == 3 {
+			for _, p := range perms {
+				both(fmt.Sprintf("reorder:%v", p), buildTar([]tmember{tms[p[0]], tms[p[1]], tms[p[2]]}))
+			}
+			// SHA256SUMS rewritten: upper-case hex, a third (blank / comment / duplicate) line,
+			// CRLF line ends, and a line longer than bufio.Scanner's 64 KiB token limit
+			// (s.Err() = bufio.ErrTooLong) after, before and between the two good lines
+			sumsTxt := string(tms[2].data)
+			lines := strings.Split(strings.TrimSuffix(sumsTxt, "\n"), "\n")
+			long := strings.Repeat("x", 70000)
+			variants := map[string]string{
+				"upper":         strings.ToUpper(sumsTxt[:64]) + sumsTxt[64:],
+				"dup-line":      sumsTxt + lines[0] + "\n",
+				"blank-line":    sumsTxt + "\n",
+				"crlf":          strings.ReplaceAll(sumsTxt, "\n", "\r\n"),
+				"no-final-nl":   strings.TrimSuffix(sumsTxt, "\n"),
+				"long-after":    sumsTxt + long,
+				"long-before":   long + "\n" + sumsTxt,
+				"long-between":  lines[0] + "\n" + long + "\n" + lines[len(lines)-1] + "\n",
+				"long-nl-after": sumsTxt + long + "\n",
+				"bad-then-long": "garbage line\n" + sumsTxt + long,
+			}
+			for _, name := range []string{"upper", "dup-line", "blank-line", "crlf", "no-final-nl", "long-after", "long-before", "long-between", "long-nl-after", "bad-then-long"} {
+				rp := append([]tmember{}, tms...)
+				rp[2] = tmember{name: tms[2].name, data: []byte(variants[name])}
+				toCoq := isSmall && (!strings.HasPrefix(name, "long") && name != "bad-then-long" || bi == 1)
+				t := buildTar(rp)
+				e.emit(o, mutation{"sums:" + name, false, t}, toCoq)
+				e.emit(o, mutation{"sums:" + name + "+gz", true, gzipBytes(t)}, toCoq)
+			}
+		}
+		injects := []tmember{
+			{name: "evil.bin", data: []byte("x")}, {name: "meta.json", data: []byte{}}, {name: "meta.json", data: []byte("{}")},
+			{name: "meta.json", data: []byte("{\"Index\":99}")}, {name: "meta.json", data: []byte("null")},
+			{name: "state.bin", data: []byte{}}, {name: "state.bin", data: []byte("zz")},
+			{name: "SHA256SUMS", data: []byte{}}, {name: "SHA256SUMS", data: []byte("\n")}, {name: "SHA256SUMS", data: []byte("garbage line\n")},
+			{name: "SHA256SUMS", data: []byte(fmt.Sprintf("%x  state.bin\n", sum(b.state)))},
+			{name: "SHA256SUMS", data: []byte(fmt.Sprintf("%x  other.bin\n", sum(b.state)))},
+			{name: "SHA256SUMS", data: []byte(fmt.Sprintf("%x  state.bin\n", sum([]byte("zz"))))},
+			// members that are not regular files: directory, symlink, hard link, fifo, char device, PAX global header
+			{name: "evil/", typ: tar.TypeDir}, {name: "evil.lnk", typ: tar.TypeSymlink, link: "state.bin"},
+			{name: "evil.hard", typ: tar.TypeLink, link: "state.bin"}, {name: "evil.fifo", typ: tar.TypeFifo},
+			{name: "evil.chr", typ: tar.TypeChar}, {name: "pax", typ: tar.TypeXGlobalHeader},
+			{name: "state.bin", typ: tar.TypeSymlink, link: "meta.json"}, {name: "meta.json", typ: tar.TypeDir},
+			{name: "SHA256SUMS", typ: tar.TypeFifo},
+		}
+		for _, inj := range injects {
+			for j := 0; j <= len(tms); j++ {
+				l := append(append(append([]tmember{}, tms[:j]...), inj), tms[j:]...)
+				both(fmt.Sprintf("inject:%s(%d)t%d@%d", inj.name, len(inj.data), inj.typ, j), buildTar(l))
+			}
+		}
+		// PAX extended header ('x') records and GNU long names apply to the NEXT member: archive/tar
+		// folds them into that member's header, so the view and consul see the same names
+		for j := range tms {
+			both(fmt.Sprintf("pax-x-path:%s", tms[j].name), buildTarPaxPath(tms, j))
+			both(fmt.Sprintf("gnu-longname:%s", tms[j].name), buildTarLongName(tms, j))
+		}
+	}
+	return restoreSet
 }
 
 func main() {
 	seed := flag.Int64("seed", 1, "seed")
 	tier := flag.String("tier", "quick", "quick|thorough")
 	out := flag.String("out", "", "output jsonl")
+	parFlag := flag.Int("par", 4, "base archives processed in parallel")
 	replay := flag.String("replay", "", "replay file (json with archive hex + gz, or a metadata round-trip case)")
 	flag.Parse()
 
@@ -718,226 +969,45 @@ func main() {
 	orders := map[string]int{}
 	var restoreSet []restoreItem
 
-	for bi, b := range bases {
-		isSmall := small[bi]
-		for _, gz := range []bool{false, true} {
-			data := b.tarb
-			if gz {
-				data = b.gzb
-			}
-			baseMs := membersOf(data, gz)
-			wi := writeInfo(&b.meta, b.state, baseMs, newMetaIDs())
-			orders[fmt.Sprintf("written-by-consul/ord=%v", wi.Ord)]++
-			o := &origin{bi: e.newBase(baseMs), meta: &b.meta, state: b.state, baseMs: baseMs, write: wi}
-			sfx := ""
-			if gz {
-				sfx = "+gz"
-			}
-			e.emit(o, mutation{"identity" + sfx, gz, data}, true)
-
-			// the same archive with the two SHA256SUMS lines in the OTHER order (the order is a Go map
-			// iteration order): the reader must accept it, and the model's write with the other ord
-			// must equal its view
-			{
-				ms := tarMembers(b.tarb)
-				var eb bytes.Buffer
-				json.NewEncoder(&eb).Encode(&b.meta)
-				lm := fmt.Sprintf("%x  %s\n", sum(eb.Bytes()), "meta.json")
-				ls := fmt.Sprintf("%x  %s\n", sum(b.state), "state.bin")
-				other := lm + ls
-				if wi.Ord {
-					other = ls + lm
-				}
-				for i := range ms {
-					if ms[i].name == "SHA256SUMS" {
-						ms[i].data = []byte(other)
-					}
-				}
-				od := buildTar(ms)
-				if gz {
-					od = gzipBytes(od)
-				}
-				oms := membersOf(od, gz)
-				owi := writeInfo(&b.meta, b.state, oms, newMetaIDs())
-				owi.Forced = true
-				orders[fmt.Sprintf("rewritten-into-other-order/ord=%v", owi.Ord)]++
-				oo := &origin{bi: e.newBase(oms), meta: &b.meta, state: b.state, baseMs: oms, write: owi}
-				e.emit(oo, mutation{"identity-other-order" + sfx, gz, od}, true)
-			}
-
-			if !gz {
-				// --- byte flips, plain ---
-				stride := 1
-				ms := masks
-				if !isSmall {
-					ms = bigMasks
-					if !thorough {
-						stride = 7
-					}
-				}
-				off := 0
-				if stride > 1 {
-					off = rng.Intn(stride)
-				}
-				for pos := off; pos < len(data); pos += stride {
-					for _, fl := range ms {
-						d := append([]byte{}, data...)
-						d[pos] ^= fl
-						e.emit(o, mutation{fmt.Sprintf("flip@%d^%02x", pos, fl), false, d}, isSmall)
-					}
-				}
-			} else {
-				ms := masks
-				if !isSmall {
-					ms = bigMasks
-				}
-				off := rng.Intn(5)
-				for pos := 0; pos < len(data); pos++ {
-					if !isSmall && !thorough && pos%5 != off {
-						continue
-					}
-					for _, fl := range ms {
-						d := append([]byte{}, data...)
-						d[pos] ^= fl
-						e.emit(o, mutation{fmt.Sprintf("gzflip@%d^%02x", pos, fl), true, d}, isSmall)
-						if isSmall && fl == 0x01 {
-							restoreSet = append(restoreSet, restoreItem{kind: "gzflip", data: d, state: b.state})
-						}
-					}
-				}
-			}
-			// --- truncations ---
-			tstride := 1
-			if !isSmall && !thorough {
-				tstride = 3
-			}
-			for n := 0; n < len(data); n += tstride {
-				k := "trunc"
-				if gz {
-					k = "gztrunc"
-				}
-				e.emit(o, mutation{fmt.Sprintf("%s@%d", k, n), gz, data[:n]}, isSmall)
-				if gz && isSmall {
-					restoreSet = append(restoreSet, restoreItem{kind: "gztrunc", data: data[:n], state: b.state})
-				}
-			}
-			if gz {
-				restoreSet = append(restoreSet, restoreItem{kind: "identity", data: data, state: b.state})
-				continue
-			}
-			// from here on: rewrites of the plain archive, fed plain and gzip-wrapped; their intact
-			// view is the plain one
-			both := func(kind string, t []byte) {
-				e.emit(o, mutation{kind, false, t}, isSmall)
-				g := gzipBytes(t)
-				e.emit(o, mutation{kind + "+gz", true, g}, isSmall)
-				if isSmall {
-					restoreSet = append(restoreSet, restoreItem{kind: strings.SplitN(kind, ":", 2)[0], data: g, state: b.state})
-				}
-			}
-			// truncating the *uncompressed* stream and re-compressing (a cut before compression)
-			for n := 0; n < len(b.tarb); n += 512 {
-				e.emit(o, mutation{fmt.Sprintf("trunc-then-gz@%d", n), true, gzipBytes(b.tarb[:n])}, isSmall)
-			}
-			// trailing garbage after the archive inside the gzip stream; a second gzip member appended
-			e.emit(o, mutation{"gz-trailing-garbage", true, gzipBytes(append(append([]byte{}, b.tarb...), 1, 2, 3))}, isSmall)
-			e.emit(o, mutation{"gz-trailing-zero-block", true, gzipBytes(append(append([]byte{}, b.tarb...), make([]byte, 512)...))}, isSmall)
-			e.emit(o, mutation{"gz-multistream-empty", true, append(gzipBytes(b.tarb), gzipBytes(nil)...)}, isSmall)
-			e.emit(o, mutation{"gz-multistream-garbage", true, append(gzipBytes(b.tarb), gzipBytes([]byte("tail"))...)}, isSmall)
-
-			// --- member-level rewrites ---
-			tms := tarMembers(b.tarb)
-			for i := range tms {
-				rm := append(append([]tmember{}, tms[:i]...), tms[i+1:]...)
-				both("remove:"+tms[i].name, buildTar(rm))
-				for j := 0; j <= len(tms); j++ {
-					dup := append(append(append([]tmember{}, tms[:j]...), tms[i]), tms[j:]...)
-					both(fmt.Sprintf("dup:%s@%d", tms[i].name, j), buildTar(dup))
-				}
-				for _, nn := range []string{"meta.json", "state.bin", "SHA256SUMS", "evil.bin", ""} {
-					if nn == tms[i].name {
-						continue
-					}
-					rn := append([]tmember{}, tms...)
-					rn[i] = tmember{name: nn, data: tms[i].data}
-					both(fmt.Sprintf("rename:%s->%q", tms[i].name, nn), buildTar(rn))
-				}
-				// content replaced wholesale (same length and different length)
-				alt := append([]byte{}, tms[i].data...)
-				if len(alt) > 0 {
-					alt[rng.Intn(len(alt))] ^= 0x20
-				}
-				alt2 := append(append([]byte{}, tms[i].data...), 'x')
-				for k, a := range [][]byte{alt, alt2, {}} {
-					if bytes.Equal(a, tms[i].data) {
-						continue
-					}
-					rp := append([]tmember{}, tms...)
-					rp[i] = tmember{name: tms[i].name, data: a}
-					both(fmt.Sprintf("replace:%s#%d", tms[i].name, k), buildTar(rp))
-				}
-			}
-			perms := [][]int{{0, 2, 1}, {1, 0, 2}, {1, 2, 0}, {2, 0, 1}, {2, 1, 0}}
-			if len(tms) == 3 {
-				for _, p := range perms {
-					both(fmt.Sprintf("reorder:%v", p), buildTar([]tmember{tms[p[0]], tms[p[1]], tms[p[2]]}))
-				}
-				// SHA256SUMS rewritten: upper-case hex, a third (blank / comment / duplicate) line,
-				// CRLF line ends, and a line longer than bufio.Scanner's 64 KiB token limit
-				// (s.Err() = bufio.ErrTooLong) after, before and between the two good lines
-				sumsTxt := string(tms[2].data)
-				lines := strings.Split(strings.TrimSuffix(sumsTxt, "\n"), "\n")
-				long := strings.Repeat("x", 70000)
-				variants := map[string]string{
-					"upper":        strings.ToUpper(sumsTxt[:64]) + sumsTxt[64:],
-					"dup-line":     sumsTxt + lines[0] + "\n",
-					"blank-line":   sumsTxt + "\n",
-					"crlf":         strings.ReplaceAll(sumsTxt, "\n", "\r\n"),
-					"no-final-nl":  strings.TrimSuffix(sumsTxt, "\n"),
-					"long-after":   sumsTxt + long,
-					"long-before":  long + "\n" + sumsTxt,
-					"long-between": lines[0] + "\n" + long + "\n" + lines[len(lines)-1] + "\n",
-					"long-nl-after": sumsTxt + long + "\n",
-					"bad-then-long": "garbage line\n" + sumsTxt + long,
-				}
-				for _, name := range []string{"upper", "dup-line", "blank-line", "crlf", "no-final-nl", "long-after", "long-before", "long-between", "long-nl-after", "bad-then-long"} {
-					rp := append([]tmember{}, tms...)
-					rp[2] = tmember{name: tms[2].name, data: []byte(variants[name])}
-					toCoq := isSmall && (!strings.HasPrefix(name, "long") && name != "bad-then-long" || bi == 1)
-					t := buildTar(rp)
-					e.emit(o, mutation{"sums:" + name, false, t}, toCoq)
-					e.emit(o, mutation{"sums:" + name + "+gz", true, gzipBytes(t)}, toCoq)
-				}
-			}
-			injects := []tmember{
-				{name: "evil.bin", data: []byte("x")}, {name: "meta.json", data: []byte{}}, {name: "meta.json", data: []byte("{}")},
-				{name: "meta.json", data: []byte("{\"Index\":99}")}, {name: "meta.json", data: []byte("null")},
-				{name: "state.bin", data: []byte{}}, {name: "state.bin", data: []byte("zz")},
-				{name: "SHA256SUMS", data: []byte{}}, {name: "SHA256SUMS", data: []byte("\n")}, {name: "SHA256SUMS", data: []byte("garbage line\n")},
-				{name: "SHA256SUMS", data: []byte(fmt.Sprintf("%x  state.bin\n", sum(b.state)))},
-				{name: "SHA256SUMS", data: []byte(fmt.Sprintf("%x  other.bin\n", sum(b.state)))},
-				{name: "SHA256SUMS", data: []byte(fmt.Sprintf("%x  state.bin\n", sum([]byte("zz"))))},
-				// members that are not regular files: directory, symlink, hard link, fifo, char device, PAX global header
-				{name: "evil/", typ: tar.TypeDir}, {name: "evil.lnk", typ: tar.TypeSymlink, link: "state.bin"},
-				{name: "evil.hard", typ: tar.TypeLink, link: "state.bin"}, {name: "evil.fifo", typ: tar.TypeFifo},
-				{name: "evil.chr", typ: tar.TypeChar}, {name: "pax", typ: tar.TypeXGlobalHeader},
-				{name: "state.bin", typ: tar.TypeSymlink, link: "meta.json"}, {name: "meta.json", typ: tar.TypeDir},
-				{name: "SHA256SUMS", typ: tar.TypeFifo},
-			}
-			for _, inj := range injects {
-				for j := 0; j <= len(tms); j++ {
-					l := append(append(append([]tmember{}, tms[:j]...), inj), tms[j:]...)
-					both(fmt.Sprintf("inject:%s(%d)t%d@%d", inj.name, len(inj.data), inj.typ, j), buildTar(l))
-				}
-			}
-			// PAX extended header ('x') records and GNU long names apply to the NEXT member: archive/tar
-			// folds them into that member's header, so the view and consul see the same names
-			for j := range tms {
-				both(fmt.Sprintf("pax-x-path:%s", tms[j].name), buildTarPaxPath(tms, j))
-				both(fmt.Sprintf("gnu-longname:%s", tms[j].name), buildTarLongName(tms, j))
-			}
-		}
+	par := *parFlag
+	if par < 1 {
+		par = 1
 	}
+	type baseOut struct {
+		buf     bytes.Buffer
+		e       *emitter
+		orders  map[string]int
+		restore []restoreItem
+	}
+	outs := make([]*baseOut, len(bases))
+	sem := make(chan struct{}, par)
+	var wg sync.WaitGroup
+	for bi, b := range bases {
+		bo := &baseOut{orders: map[string]int{}}
+		bo.e = &emitter{w: bufio.NewWriterSize(&bo.buf, 1<<16), id: (bi + 1) * 10000000, nbase: (bi + 1) * 16, seenCoq: map[string]bool{}, stats: map[string]int{}}
+		outs[bi] = bo
+		wg.Add(1)
+		go func(bi int, b *base, bo *baseOut) {
+			defer wg.Done()
+			sem <- struct{}{}
+			defer func() { <-sem }()
+			brng := rand.New(rand.NewSource(*seed*1000003 + int64(bi)))
+			bo.restore = runBase(bo.e, bi, b, bases, small[bi], thorough, brng, masks, bigMasks, bo.orders)
+			bo.e.w.Flush()
+		}(bi, b, bo)
+	}
+	wg.Wait()
+	for _, bo := range outs {
+		w.Write(bo.buf.Bytes())
+		for k, v := range bo.orders {
+			orders[k] += v
+		}
+		for k, v := range bo.e.stats {
+			e.stats[k] += v
+		}
+		restoreSet = append(restoreSet, bo.restore...)
+	}
+	e.id, e.nbase = (len(bases)+1)*10000000, (len(bases)+1)*16
 
 	// ---- metadata fuzzing, hypothesis tests, restore path ----
 	hyp := fuzzPhase(e, rng, thorough, orders)
@@ -947,7 +1017,7 @@ func main() {
 		leaked = len(ents)
 	}
 	e.line(map[string]interface{}{"type": "summary", "orders": orders, "hypotheses": hyp, "restore": rst,
-		"temp_files_left_by_snapshot_Read": leaked})
+		"temp_files_left_by_snapshot_Read": leaked, "stats": e.stats})
 }
 
 // buildTarPaxPath renames member j to a 150-character name in PAX format: a PAX extended header
